@@ -358,6 +358,17 @@ def run_shard(ctx):
                                  'estimates': k % 10 == 0})
             i += 1
         if name in ('BensonGA', 'PPY'):
+            # scale: ordinary but LARGE molecules (more than 417 heavy atoms:
+            # 24 non-unique embeddings per sp3 carbon reach the library's
+            # 10000-match budget there) with position-specific corrections
+            for smi in ('CC1CCC(' + 'OCC' * 140 + 'OC)CC1',
+                        'Cc1ccccc1C' + 'OCC' * 140 + 'OC(C)C(C)(C)C',
+                        'CC(C)C(C)(C)' + 'COC' * 141 + 'C1CC1'):
+                if ctx.mine(i):
+                    ctx.count('molecules_beyond_417_heavy_atoms')
+                    check_case(ctx, {'lib': name, 'smiles': smi,
+                                     'estimates': False})
+                i += 1
             # the two schemes with cis/trans corrections: every E/Z alkene
             # over a substituent alphabet (seeded sample on the quick tier)
             st = molecules.stereo_alkenes()
